@@ -272,6 +272,48 @@ class Tripwires:
 
             setattr(_random, name, make())
         _random.seed(0)
+        # sources of names/ids that bypass os.urandom at the Python level
+        _random._urandom = fake_urandom
+        real_Random = _random.Random
+        seq = [0]
+
+        class SimRandom(real_Random):
+            """random.Random() without a seed asks the kernel for entropy: give it a
+            simulator-controlled seed instead (one forgotten source breaks replay)."""
+
+            def __init__(self, x=None):
+                if x is None:
+                    tw._touch("random.Random()")
+                    seq[0] += 1
+                    x = 0x5EED0000 + seq[0]
+                super().__init__(x)
+
+            def seed(self, a=None, version=2):
+                if a is None:
+                    seq[0] += 1
+                    a = 0x5EED0000 + seq[0]
+                super().seed(a, version)
+
+        SimRandom.__name__ = SimRandom.__qualname__ = "Random"
+        _random.Random = SimRandom
+        import tempfile as _tempfile
+
+        _tempfile._Random = SimRandom
+
+        class _Names:
+            """Deterministic temporary-file names."""
+
+            def __init__(self):
+                self.n = 0
+
+            def __iter__(self):
+                return self
+
+            def __next__(self):
+                self.n += 1
+                return "sim%06d" % self.n
+
+        _tempfile._name_sequence = _Names()
 
 
 # ------------------------------------------------------------------- window
